@@ -32,7 +32,8 @@ OPS = [
     ("select_acc", lambda r, i: ao.op_select_fields(r, i, "accessor")),
     ("set_lists_bad", lambda r, i: ao.op_set_lists(r, i, "array", malformed=True)),
     ("set_flat_bad", lambda r, i: ao.op_set_flat(r, i, "array", malformed=True)),
-    ("setitem2", ao.op_setitem), ("export_ls", None),
+    ("setitem_multi", lambda r, i: ao.op_setitem(r, i, force_multi=True)),
+    ("setitem_multi2", lambda r, i: ao.op_setitem(r, i, force_multi=True)), ("export_ls", None),
 ]
 
 
